@@ -55,6 +55,33 @@ typedef __float128 q_t;
  *     both roundings go away from zero -, pivots non-zero, Cholesky diagonal > 0), extraction == stored and sgndet only.
  * NOT judged (w-fenv-skipped-inexact-clause): reconstruction / solve / sweep-chain / inverse-column bounds, det against the quad product and
  * lndet (libm log and the __float128 reference both follow the rounding mode; the bounds are stated for u = eps/2, round-to-nearest). */
+/* FE_INVALID and FE_DIVBYZERO are UNMASKED (feenableexcept) immediately before every library factorization / sweep / solve / inverse / determinant
+ * call of the kinds EXACT, FAIL and RANGE and masked again immediately after it returns, never while harness code runs (seeded change C08-M: sqrt of
+ * a not yet validated negative Cholesky pivot - SIGFPE inside the library for a caller with FE_INVALID unmasked, where the pinned code returns
+ * A_FAILURE).  The pinned library raises neither exception on these inputs.  Not unmasked: kind ROUNDED, and the sweeps on the storage whose unused
+ * triangle is poisoned with NaN / huge values (forms 2, 3: what an implementation does with entries outside its argument is not stated).  Sticky
+ * flags are cleared first: a pending x87 flag would trap at the next x87 instruction once unmasked (long double build). */
+#ifdef VF_FENV_ROTATE
+static int fx_trap_kind;
+static void fx_trap_on(void)
+{
+    if (!fx_trap_kind) { return; }
+    vf_count_dyn("fenv-library-call-with-invalid-and-divbyzero-unmasked", 1);
+    feclearexcept(FE_ALL_EXCEPT);
+    feenableexcept(FE_INVALID | FE_DIVBYZERO);
+}
+static void fx_trap_off(void)
+{
+    if (fx_trap_kind) { fedisableexcept(FE_INVALID | FE_DIVBYZERO); }
+}
+#define FX_TRAP_ON() fx_trap_on();
+#define FX_TRAP_OFF() fx_trap_off();
+#define FX_TRAP_KIND(v) fx_trap_kind = (v);
+#else
+#define FX_TRAP_ON()
+#define FX_TRAP_OFF()
+#define FX_TRAP_KIND(v)
+#endif
 #ifdef VF_FENV_ROTATE
 static void fx_mode_count(char const *what)
 {
@@ -388,7 +415,10 @@ static void run(job_t *j, vf_rng *r)
     memset(p, 0xA5, n * sizeof(a_uint));
     log_mat("A", A0, n);
     vf_log("a_real_%s[" W "] n=%u kind=%s sub=%u", fam_name[fam], n, kind_name[j->kind], j->sub);
+    FX_TRAP_KIND(j->kind != K_ROUNDED)
+    FX_TRAP_ON()
     ret = fam == PLU ? a_real_plu(n, F, p, &sign) : fam == LDL ? a_real_ldl(n, F) : a_real_llt(n, F);
+    FX_TRAP_OFF()
     ++vf.evals;
     if (j->expect == 2)
     {
@@ -537,8 +567,8 @@ static void run(job_t *j, vf_rng *r)
         b[i] = j->exact_solve ? (a_real)s : rnd(r) * p2((int)vf_range(r, -8, 8));
         rhs[i] = (q_t)b[i];
     }
-    if (fam == PLU) { a_real_plu_solve(n, F, p, b, x); }
-    else { memcpy(x, b, n * sizeof(a_real)); if (fam == LDL) { a_real_ldl_solve(n, F, x); } else { a_real_llt_solve(n, F, x); } }
+    if (fam == PLU) { FX_TRAP_ON() a_real_plu_solve(n, F, p, b, x); FX_TRAP_OFF() }
+    else { memcpy(x, b, n * sizeof(a_real)); FX_TRAP_ON() if (fam == LDL) { a_real_ldl_solve(n, F, x); } else { a_real_llt_solve(n, F, x); } FX_TRAP_OFF() }
     ++vf.evals;
     if (j->exact_solve)
     {
@@ -585,6 +615,7 @@ static void run(job_t *j, vf_rng *r)
         {
             char const *fnm = fname[fam][form];
             a_real const huge = p2(A_REAL_MAX_EXP - 8);
+            FX_TRAP_KIND(j->kind != K_ROUNDED && form != 2 && form != 3)
             memset(Lm, 0xA5, nn * sizeof(a_real));
             memset(Um, 0xA5, nn * sizeof(a_real));
             if (form == 1)
@@ -624,24 +655,34 @@ static void run(job_t *j, vf_rng *r)
                 vf.evals += 2;
                 if (fam == PLU)
                 {
+                    FX_TRAP_ON()
                     if (strided) { a_real_plu_lower_(n, La, v); a_real_plu_upper_(n, Ua, v); }
                     else { a_real_plu_lower(n, La, v); a_real_plu_upper(n, Ua, v); }
+                    FX_TRAP_OFF()
                 }
                 else if (fam == LLT)
                 {
+                    FX_TRAP_ON()
                     if (strided) { a_real_llt_lower_(n, La, v); a_real_llt_upper_(n, Ua, v); }
                     else { a_real_llt_lower(n, La, v); a_real_llt_upper(n, Ua, v); }
+                    FX_TRAP_OFF()
                 }
                 else if (form == 0)
                 {
+                    FX_TRAP_ON()
                     if (strided) { a_real_ldl_lower_(n, La, v); a_real_ldl_upper_(n, Ua, v); }
                     else { a_real_ldl_lower(n, La, v); a_real_ldl_upper(n, Ua, v); }
+                    FX_TRAP_OFF()
                 }
                 else
                 {
+                    FX_TRAP_ON()
                     if (strided) { a_real_plu_lower_(n, La, v); } else { a_real_plu_lower(n, La, v); }
+                    FX_TRAP_OFF()
                     for (unsigned i = 0; i < n; ++i) { v[st * i] /= dv[i]; }
+                    FX_TRAP_ON()
                     if (strided) { a_real_llt_upper_(n, La, v); } else { a_real_llt_upper(n, La, v); }
+                    FX_TRAP_OFF()
                 }
                 cnt(fam, cname[fam][form]);
                 for (size_t i = 0; i < nn && strided; ++i)
@@ -687,6 +728,7 @@ static void run(job_t *j, vf_rng *r)
         }
         bad = 0;
     forms_done:
+        FX_TRAP_KIND(j->kind != K_ROUNDED)
         free(Lm); free(Um); free(Bk); free(xc); free(Pb);
         if (bad) { goto done; }
     }
@@ -697,9 +739,11 @@ static void run(job_t *j, vf_rng *r)
 #endif
     if (j->exact_inv || j->kind <= K_ROUNDED)
     {
+        FX_TRAP_ON()
         if (fam == PLU) { a_real_plu_inv(n, F, p, tmp, X); a_real_plu_inv_(n, F, p, X2); }
         else if (fam == LDL) { a_real_ldl_inv(n, F, tmp, X); a_real_ldl_inv_(n, F, X2); }
         else { a_real_llt_inv(n, F, tmp, X); a_real_llt_inv_(n, F, X2); }
+        FX_TRAP_OFF()
         vf.evals += 2;
         for (int v = 0; v < 2; ++v)
         {
@@ -733,9 +777,11 @@ static void run(job_t *j, vf_rng *r)
     /* ---- det, lndet, sgndet against the stored pivots */
     {
         int inrange = 1, psgn = fam == PLU ? sign : 1; /* sign kept apart: the quad product may under/overflow on the full-range kind */
+        FX_TRAP_ON()
         a_real const det = fam == PLU ? a_real_plu_det(n, F, sign) : fam == LDL ? a_real_ldl_det(n, F) : a_real_llt_det(n, F);
         a_real const lnd = fam == PLU ? a_real_plu_lndet(n, F) : fam == LDL ? a_real_ldl_lndet(n, F) : a_real_llt_lndet(n, F);
         int const sgn = fam == PLU ? a_real_plu_sgndet(n, F, sign) : fam == LDL ? a_real_ldl_sgndet(n, F) : 1;
+        FX_TRAP_OFF()
         vf.evals += 3;
         prod = fam == PLU ? sign : 1;
         for (unsigned i = 0; i < n; ++i)
